@@ -502,3 +502,29 @@ def c18(tier, seed, replay=None):
                          "probability < 1e-9 under the property", "TLC decides only the control structure (Checker.tla: which mode paths are compared)"],
                         time.time() - t0, len(verdict.violations))
     return rc
+
+
+def misc_part(verdict, kind):
+    """autograd.misc (optimizers for C10, fixed_point for C08 / C07): harness/misc_replay.py judged by spec/trace/TraceMisc.tla"""
+    cases = []
+    if kind == "opt":
+        for opt in ("sgd", "rmsprop", "adam"):
+            for x0 in ("vec", "mat", "matF", "view", "scalar", "list", "dict"):
+                for it in (1, 3):
+                    cases.append({"kind": "opt", "opt": opt, "x0": x0, "iters": it})
+    else:
+        for m in ("newton", "damped", "plain"):
+            for arg in ("scalar", "array"):
+                cases.append({"kind": "fp", "map": m, "arg": arg})
+    for i, c in enumerate(cases):
+        c["id"] = i + 1
+    obs, files = vlib.parallel_replay("misc_replay.py", cases, nproc=6, tag="misc-" + kind)
+    accepted, g2, d2, _w, _inv = vlib.parallel_validate("TraceMisc", files, cfg="SPECIFICATION Spec\n", njvm=2)
+    for o in obs:
+        fails = ([o["err"]] if o["err"] else []) + [k for k, v in o.items() if v is False]
+        if not vlib.reconcile("misc observation %d %s" % (o["id"], fails), o["id"] in accepted, not fails) and not fails:
+            fails = [vlib.UNNAMED]
+        if fails:
+            verdict.violation({"layer": "misc", "kind": kind, "name": o.get("opt") or o.get("map"), "prim": o.get("opt") or "fixed_point"},
+                              {"reason": "autograd.misc: " + ", ".join(fails), "observation": o})
+    return {"states": d2, "transitions": g2, "cases": len(obs), "accepted": len(accepted)}
